@@ -210,6 +210,9 @@ Q_SHAPES = {
     # a boundary made of ONE closed cubic segment (teardrop with its corner at the start point)
     "tear": ("ctrl", [[(0.0, 0.0), (2.0, 2.0), (-2.0, 2.0), (0.0, 0.0)]]),
     "tearg": ("ctrl", [[(1.25, 0.5), (4.0, 1.5), (0.5, 3.75), (1.25, 0.5)]]),
+    # two arcs of different segments aiming at the SAME control point position (distinct objects)
+    "pinch": ("ctrl", [[(0.0, 0.0), (2.0, 2.0), (4.0, 0.0)], [(4.0, 0.0), (4.0, 4.0)], [(4.0, 4.0), (2.0, 2.0), (0.0, 4.0)], [(0.0, 4.0), (0.0, 0.0)]]),
+    "ipinch": ("ctrl", [[(0, 0), (2, 2), (4, 0)], [(4, 0), (4, 4)], [(4, 4), (2, 2), (0, 4)], [(0, 4), (0, 0)]]),
     # mixed degrees in generic position (nothing on an axis, nothing symmetric about the origin)
     "mixg": (
         "ctrl",
@@ -465,6 +468,15 @@ def build_scaled(name, factor):
     return lib.SimpleShape(lib.JordanCurve.from_ctrlpoints(ctrl))
 
 
+def build_translated(name, dx, dy):
+    """A Q leaf built (fresh, from translated control points) at another position."""
+    from . import lib
+
+    S = build_leaf(name)
+    ctrl = [[(float(p._x) + float(dx), float(p._y) + float(dy)) for p in sg.ctrlpoints] for sg in S.jordans[0].segments]
+    return lib.SimpleShape(lib.JordanCurve.from_ctrlpoints(ctrl))
+
+
 def build_cq(name):
     """Curved composite shapes built with the constructors."""
     from . import lib
@@ -499,6 +511,8 @@ def expr_id(e):
         return "affine(" + e[1] + ")"
     if t == "SCL":
         return "scaled(%s x %s)" % (e[1], e[2])
+    if t == "TR":
+        return "at(%s + (%s,%s))" % (e[1], e[2], e[3])
     if t == "SP":
         return "split(" + expr_id(e[1]) + ")"
     if t == "PC":
@@ -520,7 +534,7 @@ def expr_leaves(e):
     t = e[0]
     if t in ("L", "V", "PC", "WL"):
         return [e]
-    if t in ("MV", "CQ", "G", "SP", "SCL"):
+    if t in ("MV", "CQ", "G", "SP", "SCL", "TR"):
         return [e]
     if t in ("E", "W"):
         return []
@@ -545,6 +559,8 @@ def lib_eval(e, trace=None):
         return build_generic(e[1])
     if t == "SCL":
         return build_scaled(e[1], e[2])
+    if t == "TR":
+        return build_translated(e[1], e[2], e[3])
     if t == "SP":
         # the same shape with redundant vertices: every boundary curve split at two places
         X = lib_eval(e[1])
@@ -604,6 +620,8 @@ def model_eval(e):
         return rg.interpret(build_generic(e[1]))
     if t == "SCL":
         return rg.interpret(build_scaled(e[1], e[2]))
+    if t == "TR":
+        return rg.interpret(build_translated(e[1], e[2], e[3]))
     if t == "SP":
         return model_eval(e[1])
     if t == "MV":
